@@ -61,7 +61,8 @@ def NoCloseInside (t : Str) : Prop :=
 /-- What the spans of a token spell. -/
 def Token.Spelled (src : Str) : Token → Prop
   | .elementStart p l _ => NameSlice src p l
-  | .attribute p l _ _ => NameSlice src p l
+  | .attribute p l v sp => NameSlice src p l ∧
+      ∃ q pre, (q = '"' ∨ q = '\'') ∧ sp.text = pre ++ q :: (v.text ++ [q]) ∧ v.start = sp.start + strLen pre + 1
   | .elementEnd (.close p l) sp => NameSlice src p l ∧ ∃ mid, sp.text = '<' :: '/' :: (mid ++ ['>'])
   | .elementEnd .open sp => sp.text = ['>']
   | .elementEnd .empty sp => sp.text = ['/', '>']
@@ -150,6 +151,26 @@ theorem skipString_text {lit : Str} {s s' : Lex.Stream} (h : s.skipString lit = 
   split at h
   · next hc => rw [sliceBack_text_adv]; exact startsWith_take hc
   · cases h
+
+theorem consumeQuote_text {q : Char} {s s' : Lex.Stream} (h : s.consumeQuote = some (q, s')) :
+    (sliceBack s s').text = [q] ∧ (q = '"' ∨ q = '\'') := by
+  have e := consumeQuote_eq h
+  subst e
+  unfold Stream.consumeQuote at h
+  split at h
+  · cases h
+  · next c hc =>
+    split at h
+    · next hq =>
+      simp only [Option.some.injEq, Prod.mk.injEq] at h
+      obtain ⟨rfl, _⟩ := h
+      obtain ⟨r, hr⟩ := curr_rest hc
+      refine ⟨by rw [sliceBack_text_adv, hr]; rfl, ?_⟩
+      simp only [Bool.or_eq_true, beq_iff_eq] at hq
+      rcases hq with hq | hq
+      · exact .inr hq
+      · exact .inl hq
+    · cases h
 
 /-! ### `consume_qname`: the two spans together spell the qualified name -/
 
